@@ -9,6 +9,9 @@ From TS Require Import Spec.C15RenderSwift.
 From TS Require Proofs.C15_SwiftItem.
 From TS Require Import Spec.C15RenderGo.
 From TS Require Proofs.C15_GoItem Proofs.C15_GoFile.
+From TS Require Import Spec.C15RenderScPy.
+From TS Require Proofs.C15_ScalaItem.
+From TS Require Proofs.C15_PythonItem.
 Import ListNotations.
 From TS Require Props.C15.
 
@@ -395,3 +398,67 @@ Goal forall (uc : unicode), unicode_ok uc -> forall (cfg : go_config),
     c15_contained C15go LCode (mark (c15_file_pieces C15go parts)) = true.
 Proof. exact Props.C15.C15_go_file_line_free. Qed.
 Print Assumptions Props.C15.C15_go_file_line_free.
+Goal forall d : sc_decl,
+  c15_sc_decl_plain d = true ->
+  exists parts,
+    sc_render_decl d = text_of (c15_file_pieces C15sc parts) /\
+    docs_of (c15_file_pieces C15sc parts) = Proofs.C15.sc_decl_docs d /\
+    c15_contained C15sc LCode (mark (c15_file_pieces C15sc parts)) = forallb safe_sc (Proofs.C15.sc_decl_docs d).
+Proof. exact Props.C15.C15_sc_decl. Qed.
+Print Assumptions Props.C15.C15_sc_decl.
+Goal forall (cfg : sc_config),
+  c15_mappings_plain C15sc (sc_type_mappings cfg) = true ->
+  forall it text,
+  c15_item_strict C15sc Scala it = true ->
+  sc_write_item cfg it = Ok text ->
+  exists parts,
+    text = text_of (c15_file_pieces C15sc parts) /\
+    docs_of (c15_file_pieces C15sc parts) = c15_item_docs_helpers_first it /\
+    c15_contained C15sc LCode (mark (c15_file_pieces C15sc parts)) =
+    forallb safe_sc (c15_item_docs_helpers_first it).
+Proof. exact Props.C15.C15_sc_item. Qed.
+Print Assumptions Props.C15.C15_sc_item.
+Goal forall (cfg : sc_config),
+  c15_mappings_plain C15sc (sc_type_mappings cfg) = true ->
+  forall it ds,
+  c15_item_strict C15sc Scala it = true ->
+  sc_decl_of cfg it = Ok ds -> forallb c15_sc_decl_plain ds = true.
+Proof. exact Props.C15.C15_sc_item_decls_plain. Qed.
+Print Assumptions Props.C15.C15_sc_item_decls_plain.
+Goal forall (cfg : sc_config),
+  c15_mappings_plain C15sc (sc_type_mappings cfg) = true ->
+  forall it text,
+  c15_item_strict C15sc Scala it = true ->
+  Forall (fun d => safe_line eol_lf_cr d = true) (c15_item_docs it) ->
+  sc_write_item cfg it = Ok text ->
+  exists parts,
+    text = text_of (c15_file_pieces C15sc parts) /\
+    docs_of (c15_file_pieces C15sc parts) = c15_item_docs_helpers_first it /\
+    c15_contained C15sc LCode (mark (c15_file_pieces C15sc parts)) = true.
+Proof. exact Props.C15.C15_sc_item_line_free. Qed.
+Print Assumptions Props.C15.C15_sc_item_line_free.
+Goal forall (uc : unicode) (cfg : py_config),
+  unicode_ok uc ->
+  c15_mappings_plain C15py (py_type_mappings cfg) = true ->
+  forall it st text st',
+  c15_py_item_ok it = true ->
+  py_write_item uc cfg it st = Ok (text, st') ->
+  exists parts,
+    text = text_of (c15_file_pieces C15py parts) /\
+    docs_of (c15_file_pieces C15py parts) = map (c15_site_text C15py) (c15_py_item_sites it) /\
+    c15_contained C15py LCode (mark (c15_file_pieces C15py parts)) = forallb (c15_site_ok C15py) (c15_py_item_sites it).
+Proof. exact Props.C15.C15_py_item. Qed.
+Print Assumptions Props.C15.C15_py_item.
+Goal forall (uc : unicode) (cfg : py_config),
+  unicode_ok uc ->
+  c15_mappings_plain C15py (py_type_mappings cfg) = true ->
+  forall it st text st',
+  c15_py_item_ok it = true ->
+  Forall (fun d => safe_line eol_lf_cr d = true) (c15_item_docs it) ->
+  py_write_item uc cfg it st = Ok (text, st') ->
+  exists parts,
+    text = text_of (c15_file_pieces C15py parts) /\
+    docs_of (c15_file_pieces C15py parts) = map (c15_site_text C15py) (c15_py_item_sites it) /\
+    c15_contained C15py LCode (mark (c15_file_pieces C15py parts)) = true.
+Proof. exact Props.C15.C15_py_item_line_free. Qed.
+Print Assumptions Props.C15.C15_py_item_line_free.
